@@ -73,6 +73,22 @@ CHECKS = {
               'parsing/printing validated within 1e-9, not proved; altloc, blanks in names, empty molecules excluded; '
               'MODEL/multi-model files and CRYST1 not modelled.'),
         technique='Coq proof (exact-width lemma, field-in-place theorem by induction over the layout, decimal round trip, CONECT set equality) + tables regenerated from source + in-Coq correspondence'),
+    'C03': dict(
+        category='proof',
+        text=('Coq theorems about a model of share_moltype_with, NameMolType (with/without deduplication), the '
+              '[ molecules ]/#include bookkeeping of write_gmx_topology and the record order shared by the PDB and ITP '
+              'writers: equal names imply share_moltype (invariant over the representative list + symmetry/transitivity), '
+              'share_moltype implies identical written atoms/order/nrexcl/interactions/bonds (sorting commutes with '
+              'forgetting ignored attributes), hence the k-th coordinate record of every molecule equals the k-th atom of '
+              'the ITP written from the first bearer of its name; [ molecules ] expands to the name sequence; each name is '
+              'included exactly once. Tie: the real NameMolType/write_gmx_topology/write_pdb/DeferredFileWriter run in a '
+              'scratch directory, .top/.itp/.pdb are parsed, compared with the model and checked directly by the '
+              'property evaluated in Coq.'),
+        design_ref='DESIGN.md section 5, C03',
+        note=('Trusted: Coq kernel + vm_compute; hand-written model with attributes reduced to tags; numpy.isclose '
+              'tolerance of share_moltype_with declared (values generated equal or clearly different); write_gro is '
+              'outside the property (node order, see DESIGN F13); file parsers of the harness.'),
+        technique='Coq proof (invariant of the deduplication loop, equivalence properties, sort/projection commutation) + in-Coq correspondence on files written by the real code'),
 }
 NOT_APPLICABLE = {}
 PENDING_REASON = 'not yet claimed: model and proofs for this property are still being built (see DESIGN.md staging); no check is registered so nothing is asserted'
